@@ -927,3 +927,160 @@ func (c *Check) NilDerefGuard(rule, constructPrefix string, fns []*ssa.Function,
 	c.Sites(sites)
 	return sites
 }
+
+// ---------- RELEASED: storage handed back to a pool is not what the function returns ----------
+
+// aliasRoots walks v backwards through alias-preserving operations (slicing, field/element addresses, conversions,
+// interface boxing, phi) and through calls documented to return (an extension of) one of their arguments' storage
+// (append, hash.Hash.Sum(b), AEAD Seal/Open dst, s2.Decode dst), collecting every value met on the way.
+// AliasRoots is exported for property-specific freshness rules.
+func AliasRoots(v ssa.Value) map[ssa.Value]bool { return aliasRoots(v) }
+
+func aliasRoots(v ssa.Value) map[ssa.Value]bool {
+	seen := map[ssa.Value]bool{}
+	var walk func(v ssa.Value)
+	walk = func(v ssa.Value) {
+		if v == nil || seen[v] {
+			return
+		}
+		seen[v] = true
+		switch x := v.(type) {
+		case *ssa.Slice:
+			walk(x.X)
+		case *ssa.FieldAddr:
+			walk(x.X)
+		case *ssa.IndexAddr:
+			walk(x.X)
+		case *ssa.ChangeType:
+			walk(x.X)
+		case *ssa.Convert:
+			if _, isSlice := x.Type().Underlying().(*types.Slice); isSlice {
+				if _, fromSlice := x.X.Type().Underlying().(*types.Slice); fromSlice {
+					walk(x.X)
+				}
+			}
+		case *ssa.MakeInterface:
+			walk(x.X)
+		case *ssa.TypeAssert:
+			walk(x.X)
+		case *ssa.Extract:
+			walk(x.Tuple)
+		case *ssa.Phi:
+			for _, e := range x.Edges {
+				walk(e)
+			}
+		case *ssa.UnOp:
+			if x.Op == token.MUL {
+				// load of a local slice variable: follow its stores
+				if a, ok := x.X.(*ssa.Alloc); ok && a.Referrers() != nil {
+					for _, r := range *a.Referrers() {
+						if st, isSt := r.(*ssa.Store); isSt && st.Addr == ssa.Value(a) {
+							walk(st.Val)
+						}
+					}
+				}
+			}
+		case *ssa.Call:
+			if BuiltinName(x) == "append" {
+				walk(x.Call.Args[0])
+				return
+			}
+			name := ""
+			if x.Call.IsInvoke() {
+				name = x.Call.Method.Name()
+			} else if fo := CallObj(x.Common()); fo != nil {
+				name = fo.Name()
+			}
+			args := CallArgs(x.Common())
+			switch name {
+			case "Sum", "Seal", "Open", "AppendBinary", "AppendUvarint", "AppendVarint":
+				// (recv, dst, ...) for methods; dst is the first non-receiver argument
+				if x.Call.IsInvoke() && len(x.Call.Args) > 0 {
+					walk(x.Call.Args[0])
+				} else if len(args) > 1 {
+					walk(args[1])
+				}
+			case "Decode", "Encode":
+				if len(args) > 0 {
+					walk(args[0])
+				}
+			}
+		}
+	}
+	walk(v)
+	return seen
+}
+
+// ReleasedNotReturned: in each function, storage passed to sync.Pool.Put (directly or deferred) must not be aliased by
+// a value the function returns. One obligation per function that releases something; returns the number of releases.
+func (c *Check) ReleasedNotReturned(rule, constructPrefix string, fns []*ssa.Function) (sites int) {
+	put := X("sync", "Pool", "Put")
+	for _, fn := range fns {
+		if fn == nil || fn.Blocks == nil {
+			continue
+		}
+		var released []ssa.Value
+		var where []ssa.Instruction
+		for _, b := range fn.Blocks {
+			for _, ins := range b.Instrs {
+				var cc *ssa.CallCommon
+				switch x := ins.(type) {
+				case *ssa.Call:
+					cc = x.Common()
+				case *ssa.Defer:
+					cc = x.Common()
+				}
+				if cc == nil || !IsCallTo(cc, put) {
+					continue
+				}
+				args := CallArgs(cc)
+				if len(args) < 2 {
+					continue
+				}
+				released = append(released, args[1])
+				where = append(where, ins)
+			}
+		}
+		if len(released) == 0 {
+			continue
+		}
+		sites += len(released)
+		construct := fmt.Sprintf("%s in %s", constructPrefix, FuncName(fn))
+		bad := ""
+		for _, b := range fn.Blocks {
+			ret, ok := b.Instrs[len(b.Instrs)-1].(*ssa.Return)
+			if !ok {
+				continue
+			}
+			for _, res := range ret.Results {
+				roots := aliasRoots(res)
+				for i, r := range released {
+					for rr := range aliasRoots(r) {
+						if _, isConst := rr.(*ssa.Const); isConst {
+							continue
+						}
+						if _, isCall := rr.(*ssa.Call); !isCall {
+							if _, isAlloc := rr.(*ssa.Alloc); !isAlloc {
+								if _, isTA := rr.(*ssa.TypeAssert); !isTA {
+									continue
+								}
+							}
+						}
+						if roots[rr] {
+							// a deferred Put always precedes the caller's use; a direct Put must precede the return
+							bad = fmt.Sprintf("the value returned at %s aliases storage released to the pool at %s: the caller reads a buffer the next user of the pool overwrites", c.P.Pos(ret.Pos()), c.P.Pos(where[i].Pos()))
+						}
+					}
+				}
+			}
+		}
+		c.Touch(fn)
+		if bad != "" {
+			c.Fail(rule, construct, fn, "", len(released), bad, nil)
+		} else {
+			c.OK(rule, construct, fn, len(released), fmt.Sprintf("%d pool releases; no returned value aliases released storage", len(released)))
+		}
+	}
+	c.Sites(sites)
+	return sites
+}
